@@ -266,7 +266,7 @@ class ExceptionTrace(object):
             return self._render_exception(io, self._exception)
 
     def _render_simple(self, io):
-        message = str(self._exception)
+        message = self._exception_message()
         markup = "<error>{}</error>".format(message)
 
         if not message.endswith("\\") and self._is_markup(io, markup):
@@ -278,6 +278,13 @@ class ExceptionTrace(object):
         io.write("<error>{}</error>".format(escape_markup(body)))
         io.write_raw(message[len(body) :])
         io.write_line("")
+
+    def _exception_message(self):  # type: () -> str
+        try:
+            return str(self._exception)
+        except Exception:
+            # The report must not fail because the exception cannot describe itself
+            return "<exception str() failed>"
 
     def _is_markup(self, io, string):  # type: (IO, str) -> bool
         try:
@@ -295,7 +302,7 @@ class ExceptionTrace(object):
             tb = self._exc_info[2]
 
         title = "\n<error>{}</error>\n\n<b>{}</b>".format(
-            self._exception.__class__.__name__, str(self._exception)
+            self._exception.__class__.__name__, self._exception_message()
         )
 
         io.write_line(title)
@@ -317,7 +324,7 @@ class ExceptionTrace(object):
             io, "<error>{}</error>".format(inspector.exception_name), True
         )
         io.write_line("")
-        exception_message = inspector.exception_message
+        exception_message = self._exception_message()
         if self._is_markup(io, exception_message):
             exception_message = io.remove_format(exception_message)
 
